@@ -2,7 +2,15 @@ import TallyVerif.Driver.Util
 import TallyVerif.Model.Num
 import TallyVerif.Gen.ClassPy
 import TallyVerif.Gen.ClassJs
-/-! `classify`: run the two GENERATED classification programs on one (amount, tags) pair. -/
+/-! `classify`: run the two GENERATED classification programs on one (amount, tags) pair.
+
+Lower-casing is an external function of each language (Python `str.lower`, JavaScript
+`toLowerCase`) and the two are NOT the same function (they follow the Unicode tables of their own
+runtime).  The harness therefore records, per case, what each language's own function returned for
+every tag (`lower_py`, `lower_js`: lists of `[tag, image]` pairs, computed by the harness itself -
+not by the code under test) and the Python model runs with the Python table, the JavaScript model
+with the JavaScript table.  A tag missing from a table (old replay files carry none) falls back to
+ASCII lower-casing. -/
 namespace TallyVerif.Driver
 open Lean TallyVerif TallyVerif.Gen
 
@@ -11,6 +19,15 @@ def bucketsJson (b : Buckets Float) : Json :=
        ("transfer_in", floatToJson b.transfer_in), ("transfer_out", floatToJson b.transfer_out),
        ("spending", floatToJson b.spending), ("credits", floatToJson b.credits)]
 
+def lowerTable (j : Json) (k : String) : List (String × String) :=
+  (jarr j k).filterMap fun p =>
+    match p with
+    | .arr #[a, b] => some (asStr a, asStr b)
+    | _ => none
+
+def lowerWith (tbl : List (String × String)) (s : String) : String :=
+  (tbl.lookup s).getD (asciiLower s)
+
 def handleClassify (j : Json) : Json :=
   let a := jfloat j "amount"
   let tags : Option (List String) :=
@@ -18,7 +35,8 @@ def handleClassify (j : Json) : Json :=
     | .arr xs => some (xs.toList.map asStr)
     | _ => none
   let N := floatNum
-  let lo := asciiLower
+  let lo := lowerWith (lowerTable j "lower_py")
+  let loJs := lowerWith (lowerTable j "lower_js")
   obj [("py", obj [("cat", bucketsJson (ClassPy.categorize_amount N lo a tags)),
                    ("norm", floatToJson (ClassPy.normalize_amount N lo a tags)),
                    ("excluded", .bool (ClassPy.is_excluded_from_spending N lo tags)),
@@ -27,11 +45,12 @@ def handleClassify (j : Json) : Json :=
                    ("investment", .bool (ClassPy.is_investment N lo tags)),
                    ("cashflow", floatToJson (ClassPy.calculate_cash_flow N lo a (jfloat j "b") (jfloat j "c"))),
                    ("net", floatToJson (ClassPy.calculate_transfers_net N lo a (jfloat j "b")))]),
-       ("js", obj [("cat", bucketsJson (ClassJs.categorizeAmount N lo a tags)),
-                   ("excluded", .bool (ClassJs.isExcludedFromSpending N lo tags)),
-                   ("income", .bool (ClassJs.isIncome N lo tags)),
-                   ("transfer", .bool (ClassJs.isTransfer N lo tags)),
-                   ("investment", .bool (ClassJs.isInvestment N lo tags)),
-                   ("cashflow", floatToJson (ClassJs.calculateCashFlow N lo a (jfloat j "b") (jfloat j "c")))])]
+       ("js", obj [("cat", bucketsJson (ClassJs.categorizeAmount N loJs a tags)),
+                   ("excluded", .bool (ClassJs.isExcludedFromSpending N loJs tags)),
+                   ("income", .bool (ClassJs.isIncome N loJs tags)),
+                   ("transfer", .bool (ClassJs.isTransfer N loJs tags)),
+                   ("investment", .bool (ClassJs.isInvestment N loJs tags)),
+                   ("cashflow", floatToJson (ClassJs.calculateCashFlow N loJs a (jfloat j "b") (jfloat j "c")))]),
+       ("special_agree", .bool (specialAgree loJs lo tags))]
 
 end TallyVerif.Driver
